@@ -23,6 +23,15 @@ def run_file(rs_name, timeout=3000):
         if os.path.exists(SCRATCH):
             shutil.rmtree(SCRATCH)
         subprocess.run(['rsync', '-a', '--exclude', 'target', '--exclude', '.git', REPO.rstrip('/') + '/', SCRATCH + '/'], check=True)
+        # cargo decides by mtime whether the crate must be rebuilt; the scratch copy keeps the mtimes of its origin, so a
+        # copy of an OLDER tree following a copy of a newer one would silently reuse the newer build.  Touch the
+        # sources so that the crate is always rebuilt from exactly what was copied.
+        for root, _dirs, files in os.walk(os.path.join(SCRATCH, 'src')):
+            for fn in files:
+                os.utime(os.path.join(root, fn), None)
+        for fn in ('Cargo.toml', 'build.rs'):
+            if os.path.exists(os.path.join(SCRATCH, fn)):
+                os.utime(os.path.join(SCRATCH, fn), None)
         test_name = 'vx_' + os.path.splitext(rs_name)[0]
         shutil.copy(src, os.path.join(SCRATCH, 'tests', test_name + '.rs'))
         env = dict(os.environ, CARGO_NET_OFFLINE='true', CARGO_TARGET_DIR=os.path.join('/repo', 'target'))
